@@ -1,5 +1,6 @@
 import Copia.Lemmas.Plan
 import Copia.Model.Meta
+import Copia.Lemmas.Meta3
 /-!
 # C19 — the one-way planner and its pattern matcher equal their set definitions
 
@@ -55,6 +56,36 @@ theorem plan_delete {K} [DecidableEq K] (le : K → K → Bool) (excl : K → Bo
     p ∈ (buildPlan le excl src dst wd).delete ↔
       wd = true ∧ p ∈ dst.map (·.1) ∧ p ∉ src.map (·.1) ∧ excl p = false := by
   rw [mem_delete, lookup_none_iff]
+
+/-- C19 (remote listing): for ANY list of files with distinct non-empty NUL-free paths (tabs, newlines,
+dots, spaces, `*`, anything else allowed), sizes within `u64`, whole seconds within `i64` and any
+fraction text, the listing `find -printf <the format string in meta.rs>` writes is parsed back by
+`parse_remote_meta_output` into exactly the (path ↦ size, whole-second mtime) map that produced it:
+every file is found with its size and seconds, and nothing else is in the map. -/
+theorem parse_format (es : List Copia.Meta.Entry) (wf : ∀ e ∈ es, e.WF)
+    (nd : (es.map (·.path)).Nodup) (p : List Char) :
+    lookup (Copia.Meta.parseRemoteMeta
+        (es.flatMap (Copia.Meta.findPrintf (Copia.Gen.findPrintf.map Char.ofNat)))) p =
+      (es.find? (fun e => e.path = p)).map fun e => { size := e.size, mtime := e.secs } := by
+  have hr : es.flatMap (Copia.Meta.findPrintf (Copia.Gen.findPrintf.map Char.ofNat)) = Copia.Meta.render es := by
+    unfold Copia.Meta.render
+    congr 1
+    funext e
+    exact Copia.Meta.source_format_is_modelled e
+  have h2 : Copia.Meta.parseRemoteMeta (Copia.Meta.render es) =
+      es.foldl (fun m e => Copia.Meta.insertAL m e.path (Copia.Meta.metaOf e)) [] := by
+    unfold Copia.Meta.parseRemoteMeta
+    rw [Copia.Meta.split_render es wf]
+    exact Copia.Meta.parse_fold es wf []
+  rw [hr, h2, Copia.Meta.lookup_fold es [] p nd]
+  cases es.find? (fun e => e.path = p) <;> simp [lookup, Copia.Meta.metaOf]
+
+/-- non-vacuity: a path with a tab, a newline and a `*`, a negative mtime, the largest size -/
+example : ∀ e ∈ [({ path := "a\tb\n*.txt".toList, size := 18446744073709551615, secs := -5, frac := "5000000000".toList } : Copia.Meta.Entry),
+                 { path := "sub/x".toList, size := 0, secs := 1700000000, frac := "0000000000".toList }], e.WF := by
+  intro e he
+  simp only [List.mem_cons, List.mem_nil_iff, or_false] at he
+  rcases he with rfl | rfl <;> exact ⟨by decide, by decide, by decide, by decide, by decide, by decide⟩
 
 /-! Non-vacuity / sanity: concrete instances, including the text-contains-`*` case. -/
 example : globMatch "*a".toList "*ba".toList = true := by decide
